@@ -364,7 +364,17 @@ async fn routing_and_faults(ctx: &Ctx, rng: &mut Rng, epmd: &net::EpmdTable, id:
                 trace.push("monitor_exit".into());
             }
             4 => {
-                // an outstanding remote call answered by the peer
+                // an outstanding remote call answered by the peer - every other time by a peer that is faster than the
+                // caller: the caller is held right after its request has gone out while the reply comes in
+                let held = rng.bool();
+                if held {
+                    edp_client::verif::set_callback(Some(Arc::new(|nm: &'static str| -> u32 {
+                        if nm == "node:rpc:after_send" {
+                            std::thread::sleep(Duration::from_millis(120));
+                        }
+                        0
+                    })));
+                }
                 let node = w.node.clone();
                 let pn = w.peer_node.clone();
                 let u = uid;
@@ -382,13 +392,17 @@ async fn routing_and_faults(ctx: &Ctx, rng: &mut Rng, epmd: &net::EpmdTable, id:
                             let _ = peer.write_frame4(&pt(&control, Some(&reply))).await;
                             match call.await {
                                 Ok(Ok(v)) if v.same(&reply) => {}
-                                other => ctx.viol("C19:route:rpc-reply", "the reply to an outstanding remote call did not reach its caller", json!({"scenario": id, "result": format!("{:?}", other).chars().take(200).collect::<String>(), "trace": trace})),
+                                other => ctx.viol(if held { "C19:route:rpc-reply:reply-faster-than-the-caller" } else { "C19:route:rpc-reply" }, "the reply to an outstanding remote call did not reach its caller", json!({"scenario": id, "caller_held_after_its_request_went_out": held, "result": format!("{:?}", other).chars().take(200).collect::<String>(), "trace": trace})),
                             }
                         }
                     }
                 } else {
                     ctx.viol("C19:route:rpc-request-not-seen", "the peer did not receive the call request", json!({"scenario": id, "trace": trace}));
                 }
+                if held {
+                    edp_client::verif::set_callback(None);
+                }
+                ctx.class(if held { "route/rpc-reply/reply-faster-than-the-caller" } else { "route/rpc-reply/ordinary" });
                 trace.push("rpc".into());
             }
             _ => {
